@@ -277,17 +277,19 @@ Example C02_ex_rounding_premise : TimeFloatFacts.rounds_like_binary64_below_2p22
 Proof. exact TimeFloatFacts.rounds_like_id. Qed.
 
 (* ---- wave 7: the DFXP DOCUMENT at string level (C02 o C01 on whole documents) -------------------------------------
-   DfxpWriteDoc.dfxp_write_doc lang cs = the text DFXPWriter prints for one language of captions given as text lines
-   (compared with the real writer character by character on every run: request 207).  XmlRead.dfxp_read_string = the
+   DfxpWriteDoc.dfxp_write_doc lang cs = the writer MODEL's document for one language of captions given as text lines; it IS
+   the text DFXPWriter prints when the lines are clean (non-empty, no blank at either end) and the language name holds no
+   double quote (request 207: a difference there is a correspondence disagreement); outside that domain the theorems below
+   speak about the model document only (audit 7).  XmlRead.dfxp_read_string = the
    string-level model of DFXPReader (C01_dfxp_string_exact).  floor_cue c = (start, end) floored to the millisecond. *)
 Module DfxpDocument.
 Import model.DfxpWriteDoc model.XmlRead spec.SpecXmlDocT proofs.DfxpWriteDocFacts.
 Open Scope Z_scope.
 
 (* the written document is a well-formed rendering of an abstract document (hence parses: C01_dfxp_text_to_tree) *)
-Theorem C02_dfxp_document_wellformed : forall lang cs, forallb wcap_ok cs = true -> xdoc_ok (wdoc lang cs) = true.
+Theorem C02_dfxp_document_wellformed_unfold : forall lang cs, forallb wcap_ok cs = true -> xdoc_ok (wdoc lang cs) = true.
 Proof. exact wdoc_ok. Qed.
-Print Assumptions C02_dfxp_document_wellformed.
+Print Assumptions C02_dfxp_document_wellformed_unfold.
 
 (* its begin / end attributes are the tokens of the C02 writer model (the shared formatter), followed by region / style *)
 Theorem C02_dfxp_document_tokens : forall c : wcap, 0 <= fst (fst c) < day -> 0 <= snd (fst c) < day ->
